@@ -31,6 +31,8 @@ def alphabet(dt, rich):
     A.append(L.tick(dt, "Q", [["@", 0, L.P("PBn")], ["@", 1, L.P("PBn")]]))
     # an order refused through one client (market suspended) is offered again through the other client
     A.append(L.tick(dt, "OPN", [["@", 0, L.P("PBn")]]))
+    # an order that is already placed is handed to place_order again (a strategy retry): refused, nothing doubles
+    A.append(L.tick(dt, "Q", [["@", 0, ["PX", 0]]]))
     A.append(L.tick(dt, "Q", [["@", 0, ["PA", 0, 1]]]))
     A.append(L.tick(dt, "Q", [["@", 1, ["PA", 0, 0]]]))
     return A
